@@ -50,6 +50,8 @@ type VM struct {
 	CancelFunc    *context.CancelFunc
 	Interrupts    map[uint]value.VmInterrupt
 	LimitsPerCore CoreLimits
+	// Set if the initialization code (the global initializers) failed: every wait reports it.
+	initFailure *VMException
 }
 
 func MainFn() FunctionInvocation {
@@ -101,11 +103,10 @@ func NewVM(
 		nil,
 	)
 
+	// A global initializer may fail (`let g = 1 / 0;`): the host learns it from its first wait
+	// instead of dying in this constructor.
 	if res.Exception != nil {
-		panic(fmt.Sprintf(
-			"Fatal: VM encountered exception during initialization code: %s",
-			res.Exception.Interrupt.Message()),
-		)
+		vm.initFailure = res.Exception
 	}
 
 	return vm
@@ -462,6 +463,16 @@ func (self *VM) WaitNonConsuming() {
 }
 
 func (self *VM) Wait() (coreNum uint, i *value.VmInterrupt) {
+	coreNum, i = self.wait()
+
+	if self.initFailure != nil {
+		return self.initFailure.CoreNum, &self.initFailure.Interrupt
+	}
+
+	return coreNum, i
+}
+
+func (self *VM) wait() (coreNum uint, i *value.VmInterrupt) {
 	for {
 		self.Cores.Lock.RLock()
 		for _, core := range self.Cores.Cores {
